@@ -56,15 +56,20 @@ Theorem C09_respelling_nonvacuous :
       = validate_text ex_parsef ex_oracles ex_schema (lit "STANDARD") ex_text2.
 Proof. exact respelling_ex_real_reader. Qed.
 
-(* a blank frontmatter block (dropped by the emitter) does not change the verdict IF validate_frontmatter treats it as absent *)
-Theorem C09_blank_frontmatter : forall o sp s p d,
-  fm_blank_as_absent o sp -> verdict o s p (drop_blank_front sp d) = verdict o s p d.
+(* a blank (whitespace-only, incl. TAB-only) frontmatter block, which the emitter drops, does not change the verdict -- for every
+   oracle: validate_frontmatter's absent branch and its test are part of the model, read from the source on every run *)
+Theorem C09_blank_frontmatter : forall o s p d, verdict o s p (drop_blank_front (or_sp o) d) = verdict o s p d.
 Proof. exact verdict_blank_front. Qed.
+Theorem C09_blank_frontmatter_api : forall o bm strict ss d,
+  validator_errors o bm strict ss (drop_blank_front (or_sp o) d) = validator_errors o bm strict ss d.
+Proof. exact validator_errors_blank_front. Qed.
 Theorem C09_blank_frontmatter_same_canonical : forall sp d, emit sp (drop_blank_front sp d) = emit sp d.
 Proof. exact emit_drop_blank_front. Qed.
-Definition C09_blank_frontmatter_full : Prop := verdict_blank_front_full.
-Theorem C09_blank_frontmatter_refuted : ~ C09_blank_frontmatter_full.
-Proof. exact verdict_blank_front_refuted. Qed.
+Theorem C09_frontmatter_tables :
+  vt_fm_blank_is_absent = true /\ vt_fm_absent_test = lit "raw_frontmatter is None or not raw_frontmatter.strip()" /\
+  vt_fm_absent_code = lit "E_FM_REQUIRED" /\ vt_fm_absent_prefix = lit "frontmatter." /\
+  vt_src_fm_absent_branch = pinned_vt_src_fm_absent_branch.
+Proof. exact fm_tables. Qed.
 
 (* without the round-trip hypothesis: equal canonical text does NOT imply equal verdict (non-finite float, C02 clause 15) *)
 Definition C09_canonical_text_full : Prop := verdict_of_canonical_text_full.
